@@ -74,6 +74,10 @@ class ContinueExc(Exception):
 # types
 
 LabelSort = z3.DeclareSort("Label")
+UNIT_SORT, (UNIT_VAL,) = z3.EnumSort("NoneUnit", ["none_value"])
+_sl = z3.Datatype("SliceObj")
+_sl.declare("mk_slice", ("start", z3.IntSort()), ("stop", z3.IntSort()))
+SLICE_DT = _sl.create()
 
 from . import aseq as AQ        # noqa: E402  (axiomatic sequences; needs nothing from this module)
 from .aseq import s_len, s_at, s_concat, s_snoc, s_extract, s_contains, s_eq, s_empty, is_aseq   # noqa: E402,F401
@@ -359,6 +363,10 @@ class World:
             return z3.RealSort()
         if t.kind == "label":
             return LabelSort
+        if t.kind == "none":
+            return UNIT_SORT                 # sequences of None (additive)
+        if t.kind == "slice":
+            return SLICE_DT                  # slice(start, stop) with integer bounds, step None (additive)
         if t.kind == "rec":
             return self.classes[t.args[0]].datatype(self)
         if t.kind == "seq":
@@ -389,6 +397,14 @@ class World:
             return v.t if isinstance(v, FloatV) else z3.RealVal(v)
         if t.kind == "label":
             return v
+        if t.kind == "none":
+            if v is not None:
+                raise Unsupp(f"boxing {v!r} as None")
+            return UNIT_VAL
+        if t.kind == "slice":
+            if not isinstance(v, slice) or v.step is not None:
+                raise Unsupp(f"boxing {v!r} as slice(start, stop)")
+            return SLICE_DT.constructor(0)(to_int_term(v.start), to_int_term(v.stop))
         if t.kind == "rec":
             ci = self.classes[t.args[0]]
             if not isinstance(v, Rec) or v.cls is not ci:
@@ -418,6 +434,10 @@ class World:
             return term
         if t.kind == "float":
             return FloatV(term)
+        if t.kind == "none":
+            return None
+        if t.kind == "slice":
+            return slice(SLICE_DT.accessor(0, 0)(term), SLICE_DT.accessor(0, 1)(term))
         if t.kind == "rec":
             ci = self.classes[t.args[0]]
             dt = ci.datatype(self)
